@@ -347,6 +347,8 @@ Section LexTotal.
   (* ------------------------------------------------------------------ glue *)
   Variable is_number : N -> bool.
   Variable ftype : bytes -> N.
+  Variable to_lower : N -> N.
+  Variable case_sensitive : bool.
 
   Notation is_comp := (is_composite is_letter is_digit).
   Notation pcomp := (parse_composite is_letter is_digit).
@@ -462,38 +464,155 @@ Section LexTotal.
         pose proof (tl_length _ ts3). lia.
   Qed.
 
-  Lemma range_term_ok : forall ts,
-    range_term is_letter is_digit ts = RErr \/
-    exists ts', range_term is_letter is_digit ts = ROk ts' /\ length ts' < length ts.
+  Lemma lower_loop_ok : forall f s acc, length s < f ->
+    exists l, lower_loop to_lower f s acc = ROk l.
   Proof.
-    intros ts. unfold range_term.
-    destruct (parse_composite_ok ts) as [H | [v [ts' [H Hl]]]]; rewrite H; cbn [rbind].
-    - left. reflexivity.
-    - destruct (kw_terms_ok v) as [k Hk]. rewrite Hk. cbn [rbind].
-      destruct (Nat.leb k 1).
-      + right. exists ts'. split; [reflexivity | exact Hl].
-      + left. reflexivity.
+    induction f as [|f IH]; intros s acc H; [lia|].
+    simpl. destruct s as [|c t]; [eexists; reflexivity|].
+    destruct (decode (c :: t)) as [r sz] eqn:E.
+    assert (Hl : length (skipn sz (c :: t)) < length (c :: t))
+      by (apply (decode_skip_lt _ _ _ E); discriminate).
+    apply IH. cbn [length] in *. lia.
   Qed.
 
-  Lemma token_range_ok : forall ts,
-    token_range is_letter is_digit ts = RErr \/
-    exists ts', token_range is_letter is_digit ts = ROk ts' /\ length ts' <= length ts.
+  Lemma text_term_ok : forall sens d, exists t, text_term to_lower sens d = ROk t.
   Proof.
-    intros ts. unfold token_range.
+    intros sens d. unfold text_term. destruct sens; [eexists; reflexivity|].
+    unfold lower. destruct (lower_loop_ok (S (length d)) d []) as [l Hl]; [lia|].
+    rewrite Hl. cbn [rbind]. eexists. reflexivity.
+  Qed.
+
+  Lemma flush_term_ok : forall sens buf acc, exists l, flush_term to_lower sens buf acc = ROk l.
+  Proof.
+    intros sens buf acc. unfold flush_term. destruct buf as [|c b]; [eexists; reflexivity|].
+    destruct (text_term_ok sens (c :: b)) as [t Ht]. rewrite Ht. cbn [rbind]. eexists. reflexivity.
+  Qed.
+
+  Lemma keyword_terms_loop_ok : forall f sens s buf acc, length s < f ->
+    exists l, keyword_terms_loop to_lower f sens s buf acc = ROk l.
+  Proof.
+    induction f as [|f IH]; intros sens s buf acc H; [lia|].
+    cbn [keyword_terms_loop]. destruct s as [|c t]; [apply flush_term_ok|].
+    destruct (decode (c :: t)) as [r sz] eqn:E.
+    assert (Hl : length (skipn sz (c :: t)) < length (c :: t))
+      by (apply (decode_skip_lt _ _ _ E); discriminate).
+    destruct (N.eqb r wildcardRune).
+    - destruct (flush_term_ok sens buf acc) as [a1 Ha]. rewrite Ha. cbn [rbind].
+      apply IH. cbn [length] in *. lia.
+    - apply IH. cbn [length] in *. lia.
+  Qed.
+
+  Lemma keyword_terms_ok : forall sens s, exists l, keyword_terms to_lower sens s = ROk l.
+  Proof.
+    intros sens s. unfold keyword_terms. destruct s; [eexists; reflexivity|].
+    apply keyword_terms_loop_ok. lia.
+  Qed.
+
+  Lemma encode_rune_nonempty : forall r, encode_rune r <> [].
+  Proof. intros r. unfold encode_rune. split_ifs; discriminate. Qed.
+
+  Lemma keyword_terms_loop_nonempty : forall f sens s buf acc l,
+    keyword_terms_loop to_lower f sens s buf acc = ROk l ->
+    (s <> [] \/ buf <> [] \/ acc <> []) -> l <> [].
+  Proof.
+    induction f as [|f IH]; intros sens s buf acc l H Hne; [discriminate|].
+    cbn [keyword_terms_loop] in H. destruct s as [|c t].
+    - unfold flush_term in H. destruct buf as [|b0 b].
+      + inversion H; subst. destruct Hne as [Hc | [Hc | Hc]]; try (exfalso; apply Hc; reflexivity).
+        exact Hc.
+      + destruct (text_term to_lower sens (b0 :: b)); cbn [rbind] in H; try discriminate.
+        inversion H; subst. destruct acc; discriminate.
+    - destruct (decode (c :: t)) as [r sz].
+      destruct (N.eqb r wildcardRune).
+      + destruct (flush_term to_lower sens buf acc) as [a1| | |]; cbn [rbind] in H; try discriminate.
+        apply IH in H; [exact H|]. right. right. destruct a1; discriminate.
+      + apply IH in H; [exact H|]. right. left.
+        pose proof (encode_rune_nonempty r). destruct buf; [simpl; exact H0 | discriminate].
+  Qed.
+
+  Lemma keyword_terms_nonempty : forall sens v, keyword_terms to_lower sens v <> ROk [].
+  Proof.
+    intros sens v H. unfold keyword_terms in H. destruct v as [|c t]; [discriminate|].
+    apply keyword_terms_loop_nonempty in H; [apply H; reflexivity | left; discriminate].
+  Qed.
+
+  Lemma range_bound_ok : forall sens v,
+    range_bound to_lower sens v = RErr \/ exists t, range_bound to_lower sens v = ROk t.
+  Proof.
+    intros sens v. unfold range_bound.
+    destruct (keyword_terms_ok sens v) as [l Hl]. rewrite Hl. cbn [rbind].
+    destruct l as [|t [|t2 l]].
+    - right. eexists. reflexivity.
+    - right. eexists. reflexivity.
+    - left. reflexivity.
+  Qed.
+
+  Notation rterm := (range_term is_letter is_digit to_lower).
+  Notation trange := (token_range is_letter is_digit to_lower).
+
+  Lemma range_term_ok : forall sens ts,
+    rterm sens ts = RErr \/
+    exists t ts', rterm sens ts = ROk (t, ts') /\ length ts' < length ts.
+  Proof.
+    intros sens ts. unfold range_term.
+    destruct (parse_composite_ok ts) as [H | [v [ts' [H Hl]]]]; rewrite H; cbn [rbind].
+    - left. reflexivity.
+    - destruct (range_bound_ok sens v) as [Hb | [t Hb]]; rewrite Hb; cbn [rbind].
+      + left. reflexivity.
+      + right. exists t, ts'. split; [reflexivity | exact Hl].
+  Qed.
+
+  Lemma token_range_ok : forall sens ts,
+    trange sens ts = RErr \/
+    exists a b ts', trange sens ts = ROk (a, b, ts') /\ length ts' <= length ts.
+  Proof.
+    intros sens ts. unfold token_range.
     destruct (negb (is_kws [kw_lp; kw_lb] (cur ts))); [left; reflexivity|].
     pose proof (tl_length _ ts) as Ht.
-    destruct (range_term_ok (tl ts)) as [H | [ts1 [H Hl1]]]; rewrite H; cbn [rbind].
+    destruct (range_term_ok sens (tl ts)) as [H | [a [ts1 [H Hl1]]]]; rewrite H; cbn [rbind].
     - left. reflexivity.
     - destruct (negb (is_kws [kw_comma; kw_to] (cur ts1))); [left; reflexivity|].
       pose proof (tl_length _ ts1) as Ht1.
-      destruct (range_term_ok (tl ts1)) as [H2 | [ts2 [H2 Hl2]]]; rewrite H2; cbn [rbind].
+      destruct (range_term_ok sens (tl ts1)) as [H2 | [b [ts2 [H2 Hl2]]]]; rewrite H2; cbn [rbind].
       + left. reflexivity.
       + destruct (negb (is_kws [kw_rp; kw_rb] (cur ts2))); [left; reflexivity|].
-        right. eexists. split; [reflexivity|].
+        right. eexists. eexists. eexists. split; [reflexivity|].
         pose proof (tl_length _ ts2). lia.
   Qed.
 
-  Notation ffilter := (field_filter is_letter is_digit is_number ftype).
+  (* a range bound is normalised like a literal: each bound of an accepted range is the single
+     term that parseSeqQLKeyword - the function that builds the Terms of the keyword literal f:v
+     (literal_view) - makes of the bound's composite value, with the same case rule *)
+  Lemma range_bounds_as_literals : forall sens ts a b ts',
+    trange sens ts = ROk (a, b, ts') ->
+    exists va ts1 vb ts2,
+      pcomp (tl ts) = ROk (va, ts1) /\ keyword_terms to_lower sens va = ROk [a] /\
+      pcomp (tl ts1) = ROk (vb, ts2) /\ keyword_terms to_lower sens vb = ROk [b] /\
+      ts' = tl ts2.
+  Proof.
+    intros sens ts a b ts' H. unfold token_range in H.
+    destruct (negb (is_kws [kw_lp; kw_lb] (cur ts))); [discriminate|].
+    unfold range_term in H.
+    destruct (pcomp (tl ts)) as [[va ts1]| | |] eqn:E1; cbn [rbind] in H; try discriminate.
+    unfold range_bound in H at 1.
+    destruct (keyword_terms_ok sens va) as [la Hla]. rewrite Hla in H. cbn [rbind] in H.
+    destruct (keyword_terms to_lower sens va) as [la'| | |] eqn:Ka; try discriminate.
+    inversion Hla; subst la'. clear Hla.
+    pose proof keyword_terms_nonempty as Hne.
+    destruct la as [|ta [|ta2 la]]; cbn [rbind] in H; try discriminate.
+    { exfalso. apply (Hne sens va). exact Ka. }
+    destruct (negb (is_kws [kw_comma; kw_to] (cur ts1))); [discriminate|].
+    destruct (pcomp (tl ts1)) as [[vb ts2]| | |] eqn:E2; cbn [rbind] in H; try discriminate.
+    unfold range_bound in H.
+    destruct (keyword_terms to_lower sens vb) as [lb| | |] eqn:Kb; cbn [rbind] in H; try discriminate.
+    destruct lb as [|tb [|tb2 lb]]; cbn [rbind] in H; try discriminate.
+    { exfalso. apply (Hne sens vb). exact Kb. }
+    destruct (negb (is_kws [kw_rp; kw_rb] (cur ts2))); [discriminate|].
+    inversion H; subst.
+    exists va, ts1, vb, ts2. repeat split; assumption || reflexivity.
+  Qed.
+
+  Notation ffilter := (field_filter is_letter is_digit is_number ftype to_lower case_sensitive).
 
   Lemma field_filter_ok : forall ts,
     ffilter ts = RErr \/
@@ -508,7 +627,7 @@ Section LexTotal.
       pose proof (tl_length _ ts1) as Ht.
       destruct (is_kw [] (cur (tl ts1))); [left; reflexivity|].
       destruct (is_kws [kw_lb; kw_lp] (cur (tl ts1))).
-      { destruct (token_range_ok (tl ts1)) as [Hr | [ts3 [Hr Hl3]]]; rewrite Hr; cbn [rbind].
+      { destruct (token_range_ok (field_sens case_sensitive (n0 :: nr)) (tl ts1)) as [Hr | [ra [rb [ts3 [Hr Hl3]]]]]; rewrite Hr; cbn [rbind].
         - left. reflexivity.
         - right. eexists. eexists. split; [reflexivity | lia]. }
       destruct (is_kw kw_in (cur (tl ts1))).
@@ -565,7 +684,7 @@ Section LexTotal.
       apply IH. simpl in H. lia.
   Qed.
 
-  Notation gl := (glue is_letter is_digit is_number ftype).
+  Notation gl := (glue is_letter is_digit is_number ftype to_lower case_sensitive).
 
   Lemma glue_ok : forall f ts depth operand, length ts < f ->
     gl f ts depth operand = RErr \/ exists l, gl f ts depth operand = ROk l.
@@ -599,8 +718,8 @@ Section LexTotal.
   Qed.
 
   Lemma seqql_parse_total : forall q,
-    seqql_parse is_space is_letter is_digit is_number ftype q = RErr \/
-    exists a, seqql_parse is_space is_letter is_digit is_number ftype q = ROk a.
+    seqql_parse is_space is_letter is_digit is_number ftype to_lower case_sensitive q = RErr \/
+    exists a, seqql_parse is_space is_letter is_digit is_number ftype to_lower case_sensitive q = ROk a.
   Proof.
     intros q. unfold seqql_parse.
     destruct (lex_total q) as [lts Hl]. rewrite Hl. cbn [rbind].
